@@ -99,6 +99,31 @@ func dumpNetFull(n *network.Network) *JXNet {
 			}
 		}
 	}
+	// the public accessors report the same lists (same objects, same order), and IsControlNode is true exactly for the
+	// ids of the control nodes
+	same := func(a, b []*network.NNode) bool {
+		if len(a) != len(b) {
+			return false
+		}
+		for i := range a {
+			if a[i] != b[i] {
+				return false
+			}
+		}
+		return true
+	}
+	if !same(n.BaseNodes(), all) || !same(n.ControlNodes(), ctrl) || !same(n.AllNodes(), mimo) {
+		j.MimoOk = false
+	}
+	isCtrl := map[int]bool{}
+	for _, c := range ctrl {
+		isCtrl[c.Id] = true
+	}
+	for _, nd := range mimo {
+		if n.IsControlNode(nd.Id) != isCtrl[nd.Id] {
+			j.MimoOk = false
+		}
+	}
 	return j
 }
 
